@@ -921,6 +921,8 @@ fn apply_state(w: &mut World, st: BState) -> Result<(), String> {
     Ok(())
 }
 
+const PROPAGATE_MISMATCH: &str = "PROPAGATE-MISMATCH:";
+
 /// run the pause recipe of the column and move the clock to Tb + toff
 fn run_timeline(w: &mut World, c: &Case, col: PCol, toff: i64) -> Result<(), String> {
     let tb = w.vm.now();
@@ -934,9 +936,22 @@ fn run_timeline(w: &mut World, c: &Case, col: PCol, toff: i64) -> Result<(), Str
         let ix = w.ix_panic_pause(w.roles.fee_admin);
         w.vm.exec(&ix).map_err(|e| format!("panic_pause refused: {e:?}"))
     };
-    let propagate = |w: &mut World| {
+    let propagate = |w: &mut World| -> Result<(), String> {
         let ix = w.ix_propagate_fee_state();
-        w.vm.exec(&ix).map_err(|e| format!("propagate_fee_state refused: {e:?}"))
+        w.vm.exec(&ix).map_err(|e| format!("propagate_fee_state refused: {e:?}"))?;
+        // a successful propagation must leave the group with the pause window of the fee state
+        // ("pause in force for a group" is then the same interval as the protocol-wide pause)
+        let d = w.vm.data(&w.fee_state);
+        let fs = bytemuck::pod_read_unaligned::<marginfi_type_crate::types::FeeState>(&d[8..8 + std::mem::size_of::<marginfi_type_crate::types::FeeState>()]);
+        let pc = w.group_state().panic_state_cache;
+        let (ff, cf) = (fs.panic_state.pause_flags & 1 != 0, pc.pause_flags & 1 != 0);
+        if ff != cf || (ff && fs.panic_state.pause_start_timestamp != pc.pause_start_timestamp) {
+            return Err(format!(
+                "{PROPAGATE_MISMATCH}propagate_fee_state succeeded at t={} but the group's cached pause (flag={cf}, start={}) differs from the fee state's (flag={ff}, start={}): the pause in force protocol-wide is not the one enforced for the group",
+                w.vm.now(), pc.pause_start_timestamp, fs.panic_state.pause_start_timestamp
+            ));
+        }
+        Ok(())
     };
     match col {
         PCol::Never => {}
@@ -1210,6 +1225,9 @@ fn run_matrix(p: &Prep, c: &Case, case_hash: u64, focus: Option<&CellId>, st: &m
             let o = match eval_cell(&rw, c, row, s, col, t) {
                 Ok(o) => o,
                 Err(e) => {
+                    if let Some(m) = e.strip_prefix(PROPAGATE_MISMATCH) {
+                        return Err(Viol { sig: format!("gate:propagate-left-stale-cache:{}", col.name()), msg: format!("pause column {}: {m}", col.name()), cell });
+                    }
                     st.engine.push(format!("cell {cell:?}: {e}"));
                     continue;
                 }
